@@ -359,18 +359,15 @@ func c10PortClass(p uint16) string {
 	return "high"
 }
 
-// ---- the driver -------------------------------------------------------------------------------------------
-
-func TestVerifC10Announce(t *testing.T) {
-	rec := kit.NewRec("C10", "announce")
-	defer rec.Close()
-
+// c10NewStation builds the station side every C10 driver uses: a registration manager with the four real
+// transports, a liveness stand-in, extra phantom generations, and the package's detector channel pointed at an
+// in-process RESP server.
+func c10NewStation(t *testing.T) (*RegistrationManager, *kit.FakeRedis) {
 	os.Setenv("PHANTOM_SUBNET_LOCATION", "./test/phantom_subnets.toml")
 	fr, err := kit.NewFakeRedis("127.0.0.1:0")
 	if err != nil {
 		t.Fatal(err)
 	}
-	defer fr.Close()
 	// repoint the package's detector channel (the station hard-codes localhost:6379)
 	once.Do(func() {})
 	client = redis.NewClient(&redis.Options{Addr: fr.Addr(), PoolSize: 4})
@@ -410,6 +407,18 @@ func TestVerifC10Announce(t *testing.T) {
 		sub(3, true, "0.1.2.0/24", "100.64.0.0/10", "2001:db8::/32"), sub(2, false, "64:ff9b::/96", "198.18.0.0/15")}})
 	rm.PhantomSelector.AddGeneration(2002, &phantoms.SubnetConfig{WeightedSubnets: []*pb.PhantomSubnets{sub(1, true, "fd00::/8", "2001:0:0:1::/64")}})
 	rm.PhantomSelector.AddGeneration(2003, &phantoms.SubnetConfig{WeightedSubnets: []*pb.PhantomSubnets{sub(1, true, "203.0.113.0/24")}})
+
+	return rm, fr
+}
+
+// ---- the driver -------------------------------------------------------------------------------------------
+
+func TestVerifC10Announce(t *testing.T) {
+	rec := kit.NewRec("C10", "announce")
+	defer rec.Close()
+
+	rm, fr := c10NewStation(t)
+	defer fr.Close()
 
 	outPath := filepath.Join(kit.OutDir(), "c10_records.jsonl")
 	outF, err := os.Create(outPath)
